@@ -357,7 +357,7 @@ func (c *Ctx) fillSite(s *reqSite) {
 					return
 				}
 				fa, ok := ld.X.(*ssa.FieldAddr)
-				if !ok || typeName(fa.X.Type()) != "signaller" {
+				if !ok || !inSignaller(fa) {
 					return
 				}
 				kind, idv, ok := c.waiterEntry(x.Map, x.Key)
@@ -371,10 +371,11 @@ func (c *Ctx) fillSite(s *reqSite) {
 				s.Reg = in
 				s.RegChan = c.ResolveQ(f, x.Value, s.Q)
 				s.RegKey = idv
-				s.SigBase = c.Resolve(fa.X)
+				sb, _ := signallerBase(fa)
+				s.SigBase = c.Resolve(sb)
 			case *ssa.Store:
 				fa, ok := x.Addr.(*ssa.FieldAddr)
-				if !ok || typeName(fa.X.Type()) != "signaller" {
+				if !ok || !inSignaller(fa) {
 					return
 				}
 				_, fld := fieldOf(fa)
@@ -383,7 +384,8 @@ func (c *Ctx) fillSite(s *reqSite) {
 				}
 				s.Reg = in
 				s.RegChan = c.ResolveQ(f, x.Val, s.Q)
-				s.SigBase = c.Resolve(fa.X)
+				sb, _ := signallerBase(fa)
+				s.SigBase = c.Resolve(sb)
 			}
 		})
 	}
@@ -478,21 +480,23 @@ func (c *Ctx) regSummary(g *ssa.Function) *regSum {
 				return
 			}
 			fa, ok := ld.X.(*ssa.FieldAddr)
-			if !ok || typeName(fa.X.Type()) != "signaller" {
+			if !ok || !inSignaller(fa) {
 				return
 			}
 			_, fld = fieldOf(fa)
-			sigBase, key, val = fa.X, x.Key, x.Value
+			sb, _ := signallerBase(fa)
+			sigBase, key, val = sb, x.Key, x.Value
 		case *ssa.Store:
 			fa, ok := x.Addr.(*ssa.FieldAddr)
-			if !ok || typeName(fa.X.Type()) != "signaller" {
+			if !ok || !inSignaller(fa) {
 				return
 			}
 			_, fld = fieldOf(fa)
 			if chanElemName(fld.Type()) == "" {
 				return
 			}
-			sigBase, val = fa.X, x.Val
+			sb, _ := signallerBase(fa)
+			sigBase, val = sb, x.Val
 		default:
 			return
 		}
@@ -719,4 +723,27 @@ func stripTypeChange(v ssa.Value) ssa.Value {
 		}
 		v = ct.X
 	}
+}
+
+// inSignaller: fa addresses a field of the signaller, directly or inside a struct the signaller holds by value
+// (sig.waiters.chPubAck).
+func inSignaller(fa *ssa.FieldAddr) bool {
+	_, ok := signallerBase(fa)
+	return ok
+}
+
+// signallerBase: the *signaller the field address is rooted in.
+func signallerBase(fa *ssa.FieldAddr) (ssa.Value, bool) {
+	cur := fa
+	for i := 0; i < 4; i++ {
+		if typeName(cur.X.Type()) == "signaller" {
+			return cur.X, true
+		}
+		outer, ok := cur.X.(*ssa.FieldAddr)
+		if !ok {
+			return nil, false
+		}
+		cur = outer
+	}
+	return nil, false
 }
